@@ -409,7 +409,8 @@ class AIter(Arg):
         return f"CIterator<{lt}{self.t}>" if lt else f"CIterator<{self.t}>"
 
     def setup(self):
-        return (f"let {self.n}v: Vec<{self.t}> = Val::gen(&mut g); let mut {self.n}w = {self.n}v.clone().into_iter(); let mut {self.n}r = {self.n}v.clone().into_iter();")
+        # the caller's iterator is NOT fused: it answers None now and then and goes on afterwards
+        return (f"let {self.n}v: Vec<{self.t}> = Val::gen(&mut g); let {self.n}gap = g.below(4) as usize; let mut {self.n}w = Gappy::new({self.n}v.clone(), {self.n}gap); let mut {self.n}r = Gappy::new({self.n}v.clone(), {self.n}gap);")
 
     def pass_(self, side):
         return f"(&mut {self.n}{side}).into()"
@@ -418,10 +419,11 @@ class AIter(Arg):
         return ""
 
     def impl_post(self):
-        return (f"{{ let take = (h % 5) as usize; let mut it = {self.n}; for _ in 0..take {{ match it.next() {{ Some(x) => {{ post.u64(1); x.dig(&mut post); }} None => {{ post.u64(0); break; }} }} }} }}")
+        # the callee keeps polling after a None (the iterator is the caller's: what it answers next is its business)
+        return (f"{{ let take = (h % 7) as usize; let mut it = {self.n}; for _ in 0..take {{ match it.next() {{ Some(x) => {{ post.u64(1); x.dig(&mut post); }} None => {{ post.u64(0); }} }} }} }}")
 
     def after(self):
-        return (f"{{ let restw: Vec<{self.t}> = {self.n}w.collect(); let restr: Vec<{self.t}> = {self.n}r.collect(); if !same(&restw, &restr) {{ return Err(Fail::new(\"C02:iterator-items\", format!(\"method {{}}: iterator argument {self.i}: source left with {{:?}} behind the opaque object, {{:?}} after the direct call\", mname, restw, restr))); }} }}")
+        return (f"{{ let restw: Vec<{self.t}> = {self.n}w.rest(); let restr: Vec<{self.t}> = {self.n}r.rest(); if !same(&restw, &restr) {{ return Err(Fail::new(\"C02:iterator-items\", format!(\"method {{}}: iterator argument {self.i}: source left with {{:?}} behind the opaque object, {{:?}} after the direct call\", mname, restw, restr))); }} }}")
 
     def nondefault(self):
         return f"!{self.n}v.is_empty()"
@@ -593,6 +595,31 @@ class RBorrow(Ret):
         return "true" if self.kind in ("one", "pod") else "!rr.is_empty()"
 
 
+class RStatic(Ret):
+    """a reference that is not borrowed from self: `&'static str` / `&'static [T]` - admissible for
+    every receiver, by-value ones included"""
+    wrapped = True
+    static_return = True
+
+    def __init__(self, kind):
+        self.kind = kind  # str, bytes, words
+
+    T = {"str": "str", "bytes": "[u8]", "words": "[u64]"}
+
+    def ty(self, lt):
+        return f" -> &'static {self.T[self.kind]}"
+
+    def impl_expr(self):
+        return f"static_{self.kind}(h)"
+
+    def compare(self):
+        return ("if !(rw == rr) { return Err(Fail::new(\"C02:ret-value\", format!(\"method {}: returned static reference differs: {:?} vs {:?}\", mname, rw, rr))); }"
+                " if (rw.as_ptr() as usize, rw.len()) != (rr.as_ptr() as usize, rr.len()) { return Err(Fail::new(\"C02:ret-address\", format!(\"method {}: returned static reference arrives at {:?}, the direct call gives {:?}\", mname, (rw.as_ptr() as usize, rw.len()), (rr.as_ptr() as usize, rr.len())))); }")
+
+    def nondefault(self):
+        return "!rr.is_empty()"
+
+
 class RMutBorrow(Ret):
     borrowed = True
     needs_mut = True
@@ -713,9 +740,10 @@ class RChild(Ret):
     """wrapped associated type: owned / &  / &mut, object or group"""
     wrapped = True
 
-    def __init__(self, mode, group):
-        self.mode, self.group = mode, group
-        self.name = ("G" if group else "C") + {"owned": "o", "ref": "r", "mut": "m"}[mode]
+    def __init__(self, mode, group, nobound=False):
+        self.mode, self.group, self.nobound = mode, group, nobound
+        # nobound: the associated type is declared without an explicit lifetime bound
+        self.name = ("G" if group else "C") + {"owned": "o", "ref": "r", "mut": "m"}[mode] + ("u" if nobound else "")
         attr = "wrap_with_group" if group else "wrap_with_obj"
         if mode != "owned":
             attr += "_" + mode
@@ -725,7 +753,7 @@ class RChild(Ret):
         else:
             target = "LeafGroup" if group else "Leaf"
             self.leaf_trait = "Leaf"
-        self.assoc = (self.name, f"#[{attr}({target})]", f"{self.leaf_trait} + 'static")
+        self.assoc = (self.name, f"#[{attr}({target})]", self.leaf_trait if nobound else f"{self.leaf_trait} + 'static")
         self.borrowed = mode != "owned"
         self.needs_mut = mode == "mut"
 
@@ -786,11 +814,11 @@ class RResChild(Ret):
     Result<Self::Cp, i32> that crosses as CResult"""
     wrapped = True
 
-    def __init__(self, plain=False):
-        self.plain = plain
+    def __init__(self, plain=False, nobound=False):
+        self.plain, self.nobound = plain, nobound
         self.int_result = not plain
-        self.name = "Cp" if plain else "Co"
-        self.assoc = (self.name, "#[wrap_with_obj(Leaf)]", "Leaf + 'static")
+        self.name = ("Cp" if plain else "Co") + ("u" if nobound else "")
+        self.assoc = (self.name, "#[wrap_with_obj(Leaf)]", "Leaf" if nobound else "Leaf + 'static")
 
     def ty(self, lt):
         return f" -> Result<Self::{self.name}, {'i32' if self.plain else '()'}>"
@@ -824,15 +852,19 @@ def gen_ret(rng, recv_mut, consuming, allow_child=True):
             return ROpt(rng.choice(_opt_inner()))
         if k < 0.80:
             return RRes(rng.choice(["u8", "u64", "Pod1"]), rng.choice(["u8", "i32", "bool", "LErr"]))
-        if k < 0.90:
+        if k < 0.88:
             return RIntRes(rng.choice(["u64", "u8", "Pod1", "()", "()", "()"]), rng.choice(["io", "unit", "UErr"]), rng.random() < 0.3)
-        return RChild("owned", rng.random() < 0.4) if allow_child else RVal("u64")
+        if k < 0.92:
+            return RStatic(rng.choice(["str", "bytes", "words"]))
+        return RChild("owned", rng.random() < 0.4, rng.random() < 0.4) if allow_child else RVal("u64")
     if k < 0.10:
         return RUnit()
     if k < 0.30:
         return RVal(rng.choice(_vals()))
-    if k < 0.47:
+    if k < 0.45:
         return RBorrow(rng.choice(["str", "bytes", "words", "pods", "one", "pod"]))
+    if k < 0.47:
+        return RStatic(rng.choice(["str", "bytes", "words"]))
     if k < 0.53 and recv_mut:
         return RMutBorrow(rng.choice(["mwords", "mone"]))
     if k < 0.57:
@@ -846,12 +878,12 @@ def gen_ret(rng, recv_mut, consuming, allow_child=True):
     if not allow_child:
         return RVal(rng.choice(_vals()))
     if k < 0.89:
-        return RChild("owned", rng.random() < 0.4)
+        return RChild("owned", rng.random() < 0.4, rng.random() < 0.4)
     if k < 0.945:
-        return RChild("ref", rng.random() < 0.4)
+        return RChild("ref", rng.random() < 0.4, rng.random() < 0.4)
     if k < 0.99 and recv_mut:
-        return RChild("mut", rng.random() < 0.4)
-    return RResChild(plain=rng.random() < 0.5)
+        return RChild("mut", rng.random() < 0.4, rng.random() < 0.4)
+    return RResChild(plain=rng.random() < 0.5, nobound=rng.random() < 0.5)
 
 
 # ---------------------------------------------------------------------------------------------
@@ -994,6 +1026,10 @@ class Trait:
             f.add("recv:" + m.recv)
             if getattr(m.ret, "self_return", False):
                 f.add("self-return")
+            if getattr(m.ret, "nobound", False):
+                f.add("assoc-without-lifetime-bound" + ("-in-result" if isinstance(m.ret, RResChild) else ""))
+            if getattr(m.ret, "static_return", False):
+                f.add("static-ref-return" + ("-consuming" if m.recv == "own" else ""))
             if getattr(m, "skip", False):
                 f.add("skip_func")
             if getattr(m, "vtbl_only", False):
